@@ -1481,6 +1481,9 @@ func c04Run(r *Run) {
 		if castFns == 0 {
 			r.fail("no cast-parsing function found in LparenParser (looked for a function that reads a type name and builds a call node)")
 		}
+		// the recogniser of "(T) expr": the token accepted between the parentheses is a name (an identifier
+		// or a type keyword), never a token that carries a value — otherwise "(2) * 3" is read as a cast
+		c04CastTokens(r, ppkg, tpkg)
 	}
 
 	// C04-OPTABLE
@@ -1825,4 +1828,182 @@ func c04OpTable(r *Run, npkg, tpkg *packages.Package, tokLit map[types.Object]st
 		}
 	}
 	r.ok("literals-unique", tpkg.Types.Scope().Lookup("TokenDefinitions").Pos(), fmt.Sprintf("%d token literals, none shared by two token types", nuniq))
+}
+
+// c04CastTokens: the cast recogniser (the bool method of LparenParser that guards the call of the cast
+// parser) accepts at offset 1 only IDENTIFIER or tokens defined as keywords in token.TokenDefinitions.
+func c04CastTokens(r *Run, ppkg, tpkg *packages.Package) {
+	info := ppkg.TypesInfo
+	// token kinds from the definition table: WordType field by token constant
+	wordType := map[types.Object]string{}
+	for _, f := range tpkg.Syntax {
+		ast.Inspect(f, func(n ast.Node) bool {
+			cl, ok := n.(*ast.CompositeLit)
+			if !ok {
+				return true
+			}
+			var typ types.Object
+			wt := ""
+			for _, el := range cl.Elts {
+				kv, ok := el.(*ast.KeyValueExpr)
+				if !ok {
+					continue
+				}
+				switch exprStr(kv.Key) {
+				case "Type":
+					if id, ok := kv.Value.(*ast.Ident); ok {
+						typ = tpkg.TypesInfo.Uses[id]
+					}
+				case "WordType":
+					wt = exprStr(kv.Value)
+				}
+			}
+			if typ != nil && wt != "" {
+				wordType[typ] = wt
+			}
+			return true
+		})
+	}
+	if len(wordType) < 50 {
+		return // the table has no WordType column: nothing to judge with
+	}
+	tokObj := func(e ast.Expr) types.Object {
+		switch x := ast.Unparen(e).(type) {
+		case *ast.SelectorExpr:
+			if c, ok := info.Uses[x.Sel].(*types.Const); ok && isNamed(c.Type(), modPath+"/token", "TokenType") {
+				return c
+			}
+		case *ast.Ident:
+			if c, ok := info.Uses[x].(*types.Const); ok && isNamed(c.Type(), modPath+"/token", "TokenType") {
+				return c
+			}
+		}
+		return nil
+	}
+	// tokens a predicate func(t TokenType) bool compares its parameter with
+	predicateTokens := func(fd *ast.FuncDecl) []types.Object {
+		var out []types.Object
+		ast.Inspect(fd.Body, func(n ast.Node) bool {
+			switch x := n.(type) {
+			case *ast.BinaryExpr:
+				if x.Op == token.EQL {
+					if o := tokObj(x.Y); o != nil {
+						out = append(out, o)
+					} else if o := tokObj(x.X); o != nil {
+						out = append(out, o)
+					}
+				}
+			case *ast.CaseClause:
+				for _, v := range x.List {
+					if o := tokObj(v); o != nil {
+						out = append(out, o)
+					}
+				}
+			}
+			return true
+		})
+		return out
+	}
+	for _, fd := range funcDecls(ppkg) {
+		if recvTypeName(fd) != "LparenParser" || fd.Type.Results == nil || len(fd.Type.Results.List) != 1 {
+			continue
+		}
+		if b, ok := info.TypeOf(fd.Type.Results.List[0].Type).Underlying().(*types.Basic); !ok || b.Kind() != types.Bool {
+			continue
+		}
+		// is it the guard of the cast parser?
+		self := info.Defs[fd.Name]
+		guards := false
+		for _, other := range funcDecls(ppkg) {
+			ast.Inspect(other.Body, func(n ast.Node) bool {
+				is, ok := n.(*ast.IfStmt)
+				if !ok {
+					return true
+				}
+				tests := false
+				ast.Inspect(is.Cond, func(m ast.Node) bool {
+					if c, ok := m.(*ast.CallExpr); ok && calleeOf(info, c) == self {
+						tests = true
+					}
+					return true
+				})
+				if !tests {
+					return true
+				}
+				ast.Inspect(is.Body, func(m ast.Node) bool {
+					if c, ok := m.(*ast.CallExpr); ok {
+						if cal, ok := calleeOf(info, c).(*types.Func); ok {
+							if cd := declOf(ppkg, cal); cd != nil && c04IsCastParser(info, cd) {
+								guards = true
+							}
+						}
+					}
+					return true
+				})
+				return true
+			})
+		}
+		if !guards {
+			continue
+		}
+		var accepted []types.Object
+		ast.Inspect(fd.Body, func(n ast.Node) bool {
+			c, ok := n.(*ast.CallExpr)
+			if !ok {
+				return true
+			}
+			cal, _ := calleeOf(info, c).(*types.Func)
+			if cal == nil {
+				return true
+			}
+			// checkPositionIs(1, toks…)
+			if cal.Name() == "checkPositionIs" && len(c.Args) >= 2 {
+				if tv, ok := info.Types[c.Args[0]]; ok && tv.Value != nil && tv.Value.String() == "1" {
+					for _, a := range c.Args[1:] {
+						if o := tokObj(a); o != nil {
+							accepted = append(accepted, o)
+						}
+					}
+				}
+				return true
+			}
+			// predicate(<token at offset 1>)
+			if pd := declOf(ppkg, cal); pd != nil && len(c.Args) == 1 && cal.Type().(*types.Signature).Params().Len() == 1 {
+				if isNamed(cal.Type().(*types.Signature).Params().At(0).Type(), modPath+"/token", "TokenType") {
+					mentionsOne := false
+					ast.Inspect(c.Args[0], func(m ast.Node) bool {
+						if bl, ok := m.(*ast.BasicLit); ok && bl.Value == "1" {
+							mentionsOne = true
+						}
+						return true
+					})
+					if mentionsOne {
+						accepted = append(accepted, predicateTokens(pd)...)
+					}
+				}
+			}
+			return true
+		})
+		key := funcKey(ppkg, fd) + "#cast-type-tokens"
+		if len(accepted) == 0 {
+			r.info(key, fd.Pos(), "the tokens accepted as a cast type name could not be listed")
+			continue
+		}
+		var bad []string
+		for _, o := range accepted {
+			wt, defined := wordType[o]
+			switch {
+			case o.Name() == "IDENTIFIER":
+			case defined && wt == "KEYWORD":
+			default:
+				bad = append(bad, o.Name())
+			}
+		}
+		if len(bad) == 0 {
+			r.ok(key, fd.Pos(), fmt.Sprintf("%d tokens are accepted as a cast type name, all identifiers or keywords", len(accepted)))
+		} else {
+			sort.Strings(bad)
+			r.bad(key, fd.Pos(), fmt.Sprintf("the cast recogniser accepts value tokens as a type name (%s): a parenthesised literal such as (2) or (\"x\") is parsed as a cast of what follows, so `$a + (2) * 3` no longer groups as written", strings.Join(bad, ", ")))
+		}
+	}
 }
